@@ -34,6 +34,7 @@ CLAIMED["C07"] = ("Deductive proof of contracts on the CIDInit procedure set: ea
 CLAIMED["C20"] = ("Deductive proof, for all 2^32 integers, that appendInt writes the Type 1 number format of the proper range (one byte for -107..107, two bytes for +-108..1131, five bytes otherwise) and that the bytes decode to the same integer under the Type 1 book's number formats (ghost decoder specT1Int); proof that the real charstring decoder's number branches implement the same formats (per-iteration step clause of the decoding loop: pushes float64(specT1Int(code)) and advances by its length, rest of the stack unchanged).",
   "Partial: the fraction clauses (p/q within 1/214, no drift along a path) are not yet under contract (see evidence.not_covered); float64 arithmetic on the small integers involved is treated as exact real arithmetic. Trusted: govc, go/ssa, solvers.",
   T0, "DESIGN.md §3 C20")
+T = T0
 CLAIMED["C05"] = ("Deductive proof of the eexec cipher step of the scanner against the Adobe algorithm (plain = cipher xor (r>>8); r = (cipher + r)*52845 + 22719), of the mode discipline (nested eexec refused, mode only set on success, read errors keep the mode), of closefile (pops the file object, signals end of section) and of the eexec operator's operand check and dictionary-stack restoration on success.",
   "Partial: transparency of whole programs is the modular consequence of these contracts, not a replayed equality; hex de-armouring of readByteEexec and readstring byte-exactness are not yet under functional contract. Trusted: govc, go/ssa, solvers.", T, "DESIGN.md §3 C05")
 CLAIMED["C06"] = ("Deductive proof that charstring decryption computes, for every lenIV n with 0 <= n <= len, plain[k] = cipher[n+k] xor (R_{n+k} >> 8) with R_0 = 4330 and the Type 1 recurrence (recursive specification function specCSR, SMT define-fun-rec), returns nil for n outside the range; plus the number formats of the charstring decoder (shared with C20).",
